@@ -82,6 +82,11 @@ fn main() {
     if cmd != "compile" {
         println!("VERIF_SEED={} tier={} cmd={} workers={}", args.seed, args.tier, cmd, args.workers);
     }
+    // process-wide lazily initialised state of the code under test (entity tables, regexes) is
+    // built here, outside every simulated process: otherwise the first simulated process of an OS
+    // process differs from all later ones (its thread creates extra `RandomState`s), and a replay
+    // in a fresh OS process would not see what a long-running check saw
+    group_sim::warm_up();
     let code = match cmd.as_str() {
         "C20" => c20::check(&args),
         "C06" => rt::check(&args, gen::Prop::C06),
@@ -96,6 +101,10 @@ fn main() {
             let (_t, mut st) = glass_easel_template_compiler::parse::parse("index", &inp);
             for w in st.take_warnings() {
                 println!("{:?} level>=Warn:{} {}", w.kind, w.level() >= glass_easel_template_compiler::parse::ParseErrorLevel::Warn, w);
+            }
+            if let Ok(m) = c14::reprint("index", &inp, true) {
+                println!("mangled : {}", m.text);
+                println!("repaired: {:?}", c14::declare_mangled_for_names(&m.text));
             }
             if let Ok(r1) = c14::reprint("index", &inp, false) {
                 println!("print 1: {}", r1.text);
